@@ -702,6 +702,33 @@ func cmdHist(args []string) int {
 	replay := fs.String("replay", "", "")
 	search := fs.Bool("search", false, "")
 	fs.Parse(args)
+	if *replay != "" && strings.HasSuffix(*replay, ".bcase") {
+		b, err := os.ReadFile(*replay)
+		if err != nil {
+			fmt.Println(err)
+			return 2
+		}
+		for _, l := range strings.Split(string(b), "\n") {
+			var sd int64
+			if n, _ := fmt.Sscanf(l, "batchorder seed=%d", &sd); n == 1 {
+				rc := 0
+				// the order of the batch goroutines decides: the burst is repeated
+				for k := 0; k < 20 && rc == 0; k++ {
+					fails, line := hist.BatchOrderScenario(sd)
+					if k == 0 {
+						fmt.Println(line)
+					}
+					for _, f := range fails {
+						fmt.Println("MONITOR C17:", f)
+						rc = 1
+					}
+				}
+				return rc
+			}
+		}
+		fmt.Println("not a batch-order case")
+		return 2
+	}
 	if *replay != "" {
 		c, err := hist.LoadCase(*replay)
 		if err != nil {
